@@ -505,7 +505,9 @@ func runC10(c *Ctx) {
 			found := false
 			verdict, why := true, ""
 			for _, fn := range cpFns {
-				isSrc := func(base ssa.Value) bool { return sourceDerived(fn, base) || (fn != cp && base == ssa.Value(fn.Params[0])) }
+				isSrc := func(base ssa.Value) bool {
+					return sourceDerived(fn, base) || (fn != cp && base == ssa.Value(fn.Params[0]))
+				}
 				// marks of the copy's set, insertions into the copy's container
 				var marks, inserts []ssa.Instruction
 				for _, in := range allInstrs(fn) {
